@@ -66,14 +66,21 @@ Theorem C11_reports_no_panic : forall codecs retire_enc (good : report -> Prop),
   is_panic (plugin_reports codecs retire_enc cf seq bs) = false.
 Proof. exact plugin_reports_no_panic. Qed.
 Print Assumptions C11_reports_no_panic.
-(* instance: the in-repo premium-legacy and streamlined EVM codecs (options obtained from the definition by any
-   function), outside known finding F4 *)
-Theorem C11_reports_no_panic_repo_codecs : forall fmt_legacy fmt_streamlined legacy_opts_of streamlined_opts_of retire_enc,
+(* instance: the three in-repo EVM codecs (options obtained from the definition by any function), outside known
+   finding F4 *)
+Theorem C11_reports_no_panic_repo_codecs :
+  forall fmt_legacy fmt_unpacked fmt_streamlined legacy_opts_of unpacked_opts_of streamlined_opts_of retire_enc,
   (forall va, is_panic (retire_enc va) = false) ->
   forall cf seq bs, bok bs ->
-  (forall o r, decode_outcome (c_pver cf) bs = Ok o -> In r (snd (reports_of cf seq o)) -> outside_f4 fmt_legacy legacy_opts_of r) ->
-  is_panic (plugin_reports (repo_codecs fmt_legacy fmt_streamlined legacy_opts_of streamlined_opts_of) retire_enc cf seq bs) = false.
+  (forall o r, decode_outcome (c_pver cf) bs = Ok o -> In r (snd (reports_of cf seq o)) ->
+     outside_f4 fmt_legacy fmt_unpacked legacy_opts_of unpacked_opts_of r) ->
+  is_panic (plugin_reports (repo_codecs fmt_legacy fmt_unpacked fmt_streamlined legacy_opts_of unpacked_opts_of streamlined_opts_of)
+                           retire_enc cf seq bs) = false.
 Proof. intros. apply repo_reports_no_panic; try assumption. exact C11_gen_widths_complete. Qed.
+(* the ABI-encode-unpacked codec, like premium legacy, can only panic in the fee division (F4 region) *)
+Theorem C11_unpacked_panic_only_F4 : forall o r s, values_wf r = true ->
+  unpacked_encode o r = Panic s -> exists o', o = Some o' /\ f4_region (uo_fee o') r = true.
+Proof. exact (unpacked_panic_only_F4 C11_gen_widths_complete). Qed.
 Print Assumptions C11_reports_no_panic_repo_codecs.
 
 (* ---- Mercury v1-v4 Report: any observations, any previous report; only an external codec could panic ---- *)
